@@ -549,32 +549,3 @@ Definition ref_run (c : cfg) (s : bytes) : list ref_outcome := ref_run_dev c no_
 Definition delivered_view (d : devs) (m : msg) : list (bytes * bytes) :=
   let dict := combined (m_fields m) in
   delivered_dict (m_version m) dict (framing_of d (m_version m) dict) (m_body m).
-
-(* the first message of the stream is HTTP/1.1 with "Expect: 100-continue":
-   the class of F5/F6 (owned by C19/C06), used only to attribute disagreements *)
-Definition n_expect : bytes := [101;120;112;101;99;116].
-Definition w_100_continue : bytes := [49;48;48;45;99;111;110;116;105;110;117;101].
-Fixpoint first_expects_fuel (fuel : nat) (c : cfg) (d : devs) (s : bytes) : bool :=
-  match fuel with
-  | O => false
-  | S f =>
-    match read_head s [] [] 0 with
-    | None => false
-    | Some (lines, rest, _) =>
-      match drop_leading d lines with
-      | [] => first_expects_fuel f c d rest
-      | rl :: flines =>
-        match head_fields flines, parse_request_line d (prepare_request_line c d rl) with
-        | Some fs, Some (_, _, v) =>
-          beqb v v11 &&
-          match lookup (combined fs) (norm_name n_expect) with
-          | Some e => beqb (to_lower e) w_100_continue
-          | None => false
-          end
-        | _, _ => false
-        end
-      end
-    end
-  end.
-Definition first_expects (c : cfg) (d : devs) (s : bytes) : bool :=
-  first_expects_fuel (S (length s)) c d s.
